@@ -30,7 +30,7 @@ def run(ctx):
     exe = L.build_harness(ctx, HDIR)
     if not exe:
         return
-    n = 150 if ctx.tier == "quick" else 3000
+    n = 300 if ctx.tier == "quick" else 3000
     rc, out = L.run_harness(ctx, exe, TEST, env={"VERIF_N": n, "VERIF_FLUSH": 1}, timeout=1700)
     if rc != 0:
         if not L.crash_violation(ctx, TRANSCRIPT, out, "c08"):
